@@ -124,6 +124,15 @@ func (fr *frame) invoke(st *PState, c *ssa.CallCommon, recv Val, args []Val, k f
 		fr.callFunction(st, qname, f, fsig, append([]Val{recvV}, args...), k)
 		return
 	}
+	if pv := fr.top.contract.Flags["pure"]; pv != "" {
+		for _, sub := range strings.Split(pv, ",") {
+			if sub = strings.TrimSpace(sub); sub != "" && strings.Contains(m, sub) {
+				ex.Assumed["assumed pure (no effect on chain state or heap): interface method "+ShortName(key)+"."+m] = true
+				k(st, fr.freshResults(st, sig, m))
+				return
+			}
+		}
+	}
 	// a contract stated on the interface method itself (external keepers: bank, account, ...)
 	if ct, ok := ex.CS.ByFunc["("+key+")."+m]; ok {
 		recvT := ex.reify(st, recv, c.Value.Type())
